@@ -111,6 +111,9 @@ def strategy(draw, tier="quick"):
                 case["ragged"]["reopen_append"] = True   # the ragged write is the first one after re-opening with mode='a'
     elif mode == "crash" and fmt in LIVE:
         case["crash"] = {"at": draw(st.integers(1, 2 * len(comp))), "how": draw(st.sampled_from(["kill", "_exit"]))}
+        early = draw(st.sampled_from([None, None, "closed", "open"]))
+        if early:
+            case["earlier"] = early      # the writing process produced another file of the format first (an earlier run stage)
         if "C19-xtc-truncated-tail-unloadable" in _open_keys() and _xtc_unflushed_big_write(case):
             case["crash"]["at"] += 1          # excluded by construction: the kill comes after the flush of that write instead
             case["excluded"] = ["excluded:C19-xtc-truncated-tail-unloadable"]
@@ -173,6 +176,9 @@ def enumerate_cases(tier):
                             continue
                         c["append_after"] = 1
                     yield c
+                    if how == "kill" and fmt != "h5a":
+                        # the same crash point in a process that wrote another file of the format before (left open / closed)
+                        yield dict(c, earlier="closed" if at % 2 else "open")
 
 
 # ------------------------------------------------------------------------------------------------ writing
@@ -353,12 +359,20 @@ def _crash_case(case, tr, d, what, labels):
     at, how = case["crash"]["at"], case["crash"]["how"]
     viol = []
     fn = os.path.join(d, "live." + fmt)
+    efn = os.path.join(d, "earlier." + fmt)
     r, w = os.pipe()
     pid = os.fork()
     if pid == 0:
         code = 7
         try:
             os.close(r)
+            if case.get("earlier"):
+                fe = _open_w(efn, fmt)
+                _write(fmt, fe, tr, 0, sum(comp), cell, time)
+                if hasattr(fe, "flush"):
+                    fe.flush()
+                if case["earlier"] == "closed":
+                    fe.close()
             fh = _open_w(fn, fmt)
             opn = 0
             for k, (lo, hi) in enumerate(_bounds(comp)):
@@ -428,6 +442,16 @@ def _crash_case(case, tr, d, what, labels):
             dd = files.traj_diff(got, exp[:len(got)], what=what)
             if dd:
                 viol.append(("%s/crash/wrong-frames" % fmt, "%d flushed, %d loaded: %s" % (flushed, len(got), dd)))
+    if case.get("earlier"):
+        # the earlier file was flushed (and possibly closed) before the live file was even opened: all its frames are due
+        labels.append("earlier-file:" + case["earlier"])
+        try:
+            dd = files.traj_diff(_load(efn, fmt, tr), exp, what=what)
+        except Exception as e:
+            dd = "load fails: %s %s" % (type(e).__name__, str(e)[:160])
+        if dd:
+            viol.append(("%s/crash/earlier-file" % fmt, "the file written, flushed%s before the live one: %s" % (
+                " and closed" if case["earlier"] == "closed" else "", dd)))
     labels += ["crash:" + how, "flushed:%d" % min(flushed, 3)]
     if "append_after" in case:
         labels.append("h5-append")
